@@ -263,6 +263,20 @@ def _summarise_loop(ctx, s: StepSummary, pre):
         if isinstance(v, ast.Call) and call_name(v) == "int" and v.args and isinstance(v.args[0], ast.Name) and v.args[0].id == "t0":
             se.env[nm] = T0
             se.env_naive[nm] = T0
+    # arithmetic locals bound before the loop (half_dt = dt / 2, first = int(t0) + 0, ...)
+    known = {"dt", "t0"}
+    for nm, v in pre.items():
+        if nm in se.env or nm in f.params:
+            continue
+        names = {n.id for n in ast.walk(v) if isinstance(n, ast.Name)}
+        if not names or not names <= (known | set(se.env)) or any(isinstance(n, (ast.Subscript, ast.Attribute, ast.IfExp, ast.Compare, ast.BoolOp)) for n in ast.walk(v)):
+            continue
+        try:
+            val = se.expr(v)
+        except AnalysisError:
+            continue
+        se.env[nm] = val
+        se.env_naive[nm] = val
     store_ifs, hist_ifs = [], []
     ynew_t = ynew_n = None
     for st in loop.body:
@@ -271,7 +285,7 @@ def _summarise_loop(ctx, s: StepSummary, pre):
             if ivar in names and any(isinstance(n, ast.Mod) for n in ast.walk(st.test)):
                 store_ifs.append(st)
                 continue
-            if any(isinstance(x, ast.Call) and call_name(x) == "update" for x in ast.walk(st)) or "has_dde" in names:
+            if any(isinstance(x, ast.Call) and call_name(x) == "update" for x in ast.walk(st)) or _mentions_ddehistory(st.test, pre):
                 hist_ifs.append(st)
                 continue
             raise AnalysisError(f"{f.qual}: unrecognised conditional in the step loop: {norm(st)}")
@@ -307,13 +321,21 @@ def _summarise_loop(ctx, s: StepSummary, pre):
     if len(store_ifs) == 1:
         si = store_ifs[0]
         t = si.test
-        ok_test = (isinstance(t, ast.Compare) and len(t.ops) == 1 and isinstance(t.ops[0], ast.Eq)
-                   and isinstance(t.left, ast.BinOp) and isinstance(t.left.op, ast.Mod)
-                   and isinstance(t.left.left, ast.Name) and t.left.left.id == ivar
-                   and isinstance(t.comparators[0], ast.Constant) and t.comparators[0].value == 0)
+        # `i % stride == 0`, `0 == i % stride`, `not i % stride`, `not (i % stride)`
+        modexpr = None
+        if isinstance(t, ast.Compare) and len(t.ops) == 1 and isinstance(t.ops[0], ast.Eq):
+            a, b = t.left, t.comparators[0]
+            if isinstance(b, ast.Constant) and b.value == 0 and not isinstance(b.value, bool):
+                modexpr = a
+            elif isinstance(a, ast.Constant) and a.value == 0 and not isinstance(a.value, bool):
+                modexpr = b
+        elif isinstance(t, ast.UnaryOp) and isinstance(t.op, ast.Not):
+            modexpr = t.operand
+        ok_test = (isinstance(modexpr, ast.BinOp) and isinstance(modexpr.op, ast.Mod)
+                   and isinstance(modexpr.left, ast.Name) and modexpr.left.id == ivar)
         store["test"] = norm(si)
         store["test_is_counter_mod_stride_eq_0"] = ok_test
-        store["stride_expr"] = rows_normal_form(t.left.right, pre) if ok_test else None
+        store["stride_expr"] = rows_normal_form(modexpr.right, pre) if ok_test else None
         recs = [x for x in si.body if isinstance(x, ast.Assign) and len(x.targets) == 1 and isinstance(x.targets[0], ast.Subscript)]
         incs = [x for x in si.body if isinstance(x, ast.AugAssign) and isinstance(x.target, ast.Name)]
         store["stores_in_branch"] = len(recs)
@@ -339,6 +361,9 @@ def _summarise_loop(ctx, s: StepSummary, pre):
             # allocation rows
             recname = store["record"]
             alloc = pre.get(recname)
+            for _ in range(6):
+                if isinstance(alloc, ast.Name) and alloc.id in pre:
+                    alloc = pre[alloc.id]
             if isinstance(alloc, ast.Call) and alloc.args:
                 shp = alloc.args[0]
                 if isinstance(shp, ast.IfExp):
@@ -384,8 +409,16 @@ def _hist_loop(ctx, s, loop, hist_ifs, pre, ivar, state):
         h["guard_is_ddehistory_test"] = _mentions_ddehistory(hi.test, pre)
         recv = u.func.value
         h["receiver"] = ast.unparse(recv)
-        h["receiver_is_args0"] = (isinstance(recv, ast.Subscript) and isinstance(recv.value, ast.Name) and recv.value.id == "args"
-                                  and isinstance(recv.slice, ast.Constant) and recv.slice.value == 0)
+
+        def is_args0(e):
+            return (isinstance(e, ast.Subscript) and isinstance(e.value, ast.Name) and e.value.id == "args"
+                    and isinstance(e.slice, ast.Constant) and e.slice.value == 0)
+        rv = recv
+        if isinstance(rv, ast.Name) and rv.id in pre:
+            rv = pre[rv.id]
+            if isinstance(rv, ast.IfExp) and isinstance(rv.orelse, ast.Constant) and rv.orelse.value is None:
+                rv = rv.body
+        h["receiver_is_args0"] = is_args0(rv)
         if len(u.args) == 2:
             se = _SymExec("func", ["args"], False)
             se.env = {ivar: N, "dt": DT}
@@ -406,6 +439,14 @@ def _hist_loop(ctx, s, loop, hist_ifs, pre, ivar, state):
 
 
 def _mentions_ddehistory(test: ast.AST, pre) -> bool:
+    # `h is not None` / `h` where h = args[0] if <DDEHistory test> else None
+    t = test
+    if isinstance(t, ast.Compare) and len(t.ops) == 1 and isinstance(t.ops[0], ast.IsNot) and isinstance(t.comparators[0], ast.Constant) \
+            and t.comparators[0].value is None:
+        t = t.left
+    if isinstance(t, ast.Name) and t.id in pre and isinstance(pre[t.id], ast.IfExp) and isinstance(pre[t.id].orelse, ast.Constant) \
+            and pre[t.id].orelse.value is None:
+        return _mentions_ddehistory(pre[t.id].test, {k: v for k, v in pre.items() if k != t.id})
     for n in ast.walk(test):
         if isinstance(n, ast.Name) and n.id in pre and n.id not in ("args",):
             if _mentions_ddehistory(pre[n.id], {}):
@@ -477,30 +518,75 @@ def _summarise_scan(ctx, s: StepSummary, pre):
     s.update_stmt = ret
     s.store["time_carry_advances_by_one"] = sp.expand(tn_n - TAU - 1) == 0
     _finish(s, se, yn_t, yn_n, shift_tau=False)
-    # outer_step: emits the block's starting state
-    ob = outer.node.body
-    unp = ob[0]
-    oret = [x for x in ob if isinstance(x, ast.Return)]
+    # outer block, abstractly: C = the block's carry, E = the carry returned by the inner scan; ('T', a, b) = tuple
     store = s.store
     store["form"] = "scan"
-    if isinstance(unp, ast.Assign) and isinstance(unp.targets[0], ast.Tuple) and len(unp.targets[0].elts) == 2 and oret:
-        ts_name, ys_name = (e.id for e in unp.targets[0].elts)
-        r = oret[0].value
-        store["emits_start_state"] = isinstance(r, ast.Tuple) and len(r.elts) == 2 and isinstance(r.elts[1], ast.Name) and r.elts[1].id == ys_name
-        store["node"] = oret[0]
-        inner_scan = in_scans
-        if inner_scan:
-            c = inner_scan[0]
-            init = c.args[1] if len(c.args) > 1 else None
-            store["inner_starts_from_block_start"] = isinstance(init, ast.Tuple) and [getattr(e, "id", None) for e in init.elts] == [ts_name, ys_name]
-            ln = [k.value for k in c.keywords if k.arg == "length"]
-            store["stride_expr"] = rows_normal_form(ln[0], pre) if ln else None
-            # carry returned by outer = end of inner scan
-            tgt = [x for x in ob if isinstance(x, ast.Assign) and x.value is c]
-            if tgt and isinstance(tgt[0].targets[0], ast.Tuple) and isinstance(tgt[0].targets[0].elts[0], ast.Tuple):
-                end_names = [e.id for e in tgt[0].targets[0].elts[0].elts]
-                r0 = r.elts[0] if isinstance(r, ast.Tuple) else None
-                store["outer_carry_is_inner_end"] = isinstance(r0, ast.Tuple) and [getattr(e, "id", None) for e in r0.elts] == end_names
+    cparam = outer.params[0] if outer.params else None
+    aenv = {cparam: ("C",)} if cparam else {}
+
+    def canon(v):
+        if isinstance(v, tuple) and v and v[0] == "T" and len(v) == 3:
+            a_, b_ = canon(v[1]), canon(v[2])
+            for base in ("C", "E"):
+                if a_ == (base, 0) and b_ == (base, 1):
+                    return (base,)
+            return ("T", a_, b_)
+        return v
+
+    def absval(e):
+        if isinstance(e, ast.Name):
+            return aenv.get(e.id, ("?", e.id))
+        if isinstance(e, ast.Tuple) and len(e.elts) == 2:
+            return canon(("T", absval(e.elts[0]), absval(e.elts[1])))
+        if isinstance(e, ast.Subscript) and isinstance(e.slice, ast.Constant) and e.slice.value in (0, 1):
+            b_ = absval(e.value)
+            if b_ in (("C",), ("E",)):
+                return (b_[0], e.slice.value)
+            if isinstance(b_, tuple) and b_ and b_[0] == "T":
+                return canon(b_[1 + e.slice.value])
+        return ("?", ast.unparse(e)[:40])
+
+    def bind(target, val):
+        if isinstance(target, ast.Name):
+            aenv[target.id] = canon(val)
+        elif isinstance(target, (ast.Tuple, ast.List)) and len(target.elts) == 2:
+            val = canon(val)
+            if val in (("C",), ("E",)):
+                parts = [(val[0], 0), (val[0], 1)]
+            elif isinstance(val, tuple) and val and val[0] == "T":
+                parts = [val[1], val[2]]
+            else:
+                parts = [("?", "part0"), ("?", "part1")]
+            for t_, p_ in zip(target.elts, parts):
+                bind(t_, p_)
+    c_in = in_scans[0]
+    oret = None
+    for st in outer.node.body:
+        if isinstance(st, ast.Assign) and len(st.targets) == 1:
+            if st.value is c_in:
+                # (carry_end, per_step_outputs) = scan(...)
+                tgt = st.targets[0]
+                if isinstance(tgt, (ast.Tuple, ast.List)) and len(tgt.elts) == 2:
+                    bind(tgt.elts[0], ("E",))
+                else:
+                    raise AnalysisError(f"{outer.qual}: the inner scan's result is not unpacked into (carry, outputs)")
+            else:
+                bind(st.targets[0], absval(st.value))
+        elif isinstance(st, ast.Return):
+            oret = st
+        elif isinstance(st, ast.Expr) and isinstance(st.value, ast.Constant):
+            continue
+        else:
+            raise AnalysisError(f"{outer.qual}: unrecognised statement {norm(st)}")
+    if oret is None or not (isinstance(oret.value, ast.Tuple) and len(oret.value.elts) == 2):
+        raise AnalysisError(f"{outer.qual}: unrecognised return form")
+    store["node"] = oret
+    init = c_in.args[1] if len(c_in.args) > 1 else None
+    store["inner_starts_from_block_start"] = init is not None and absval(init) == ("C",)
+    store["outer_carry_is_inner_end"] = absval(oret.value.elts[0]) == ("E",)
+    store["emits_start_state"] = absval(oret.value.elts[1]) == ("C", 1)
+    ln = [k.value for k in c_in.keywords if k.arg == "length"]
+    store["stride_expr"] = rows_normal_form(ln[0], pre) if ln else None
     outer_scan = top_scans
     if outer_scan:
         c = outer_scan[0]
